@@ -285,6 +285,16 @@ def check_C13(ctx):
         for v in rep["violations"]:
             if v["kind"].startswith("target-") or v["kind"] == "enc-after-failure":
                 ctx.violation("target", v)
+        # one Encoder reused across failing and succeeding values; user-defined types with mixed dynamic values (impl-only oracles)
+        rc, hrep, out, err = run_harness(["history", "-seed", str(ctx.seed), "-n", "10" if ctx.tier == "quick" else "200"])
+        if hrep is None:
+            ctx.violation("history-crash", {"what": "history suite crashed", "stderr": tail(err)}, found_input=False)
+        else:
+            ctx.cov["evaluations"] += hrep["evaluations"]
+            ctx.cov["encoder_sessions_and_user_types"] = {k: v for k, v in hrep.get("distribution", {}).items()}
+            for v in hrep["violations"][:5]:
+                if v.get("kind") in ("encoder-session", "user-type"):
+                    ctx.violation(v["kind"], v)
     if broken and not ctx.violations:
         ctx.violation("theorem", broken, found_input=False)
     return ctx.finish()
